@@ -13,7 +13,7 @@
 EXTENDS FixedCompose, TLC, Json
 
 CONSTANTS MaxSyl,       \* words of up to MaxSyl syllables
-          Rich          \* TRUE: the larger onset set
+          Rich          \* "base": base onsets | "rich": the larger onset set | "cons": EVERY consonant as onset and inside a conjunct
 
 VARIABLES o,            \* helper settings (karorder is set per machine)
           w,            \* the word: sequence of syllables
@@ -28,7 +28,10 @@ BaseOnsets == { <<C1>>, <<C2>>, <<C1, H, C1>>, <<C1, H, C2>>, <<C2, H, C1>>,
                 <<C1, ROFOLA>>, <<C1, ZOFOLA>>, <<C2, ZOFOLA>>, <<KKHA>> }
 RichOnsets == BaseOnsets \cup { <<C2, H, C2>>, <<C1, H, C1, H, C1>>, <<C2, ROFOLA>>, <<C1, H, C1, ROFOLA>>,
                                 <<C1, ROFOLA, ZOFOLA>>, <<C1, H, C2, ZOFOLA>>, <<KKHA, H, C1>> }
-Onsets == IF Rich THEN RichOnsets ELSE BaseOnsets
+\* consonant sweep: each of the 36 consonants alone, as first and as second member of a conjunct (second syllable of a
+\* two-syllable word whose first syllable is a plain consonant or punctuation)
+ConsOnsets == UNION {{ <<<<c>>>>, <<<<c>>, H, C1>>, <<C1, H, <<c>>>> } : c \in Consonants}
+Onsets == IF Rich = "cons" THEN ConsOnsets ELSE IF Rich = "rich" THEN RichOnsets ELSE BaseOnsets
 
 Syllables == [onset : Onsets, kar : Kars \cup {NUL}, chandra : BOOLEAN]
                \cup {[plain |-> <<"আ">>], [plain |-> <<"(">>], [plain |-> <<"১">>]}
@@ -46,7 +49,8 @@ AddSyllable(sy) ==
     /\ un' = RunKeys(un, UnicodeKeysSyl(sy), Off(o))
     /\ UNCHANGED <<o, alt>>
 
-Next == Len(w) < MaxSyl /\ \E sy \in Syllables : AddSyllable(sy)
+FirstOK(sy) == (Rich = "cons" /\ Len(w) = 0) => sy \in {[onset |-> <<C1>>, kar |-> NUL, chandra |-> FALSE], [plain |-> <<"(">>]}
+Next == Len(w) < MaxSyl /\ \E sy \in Syllables \cup {[onset |-> <<C1>>, kar |-> NUL, chandra |-> FALSE]} : FirstOK(sy) /\ AddSyllable(sy)
 Spec == Init /\ [][Next]_vars
 
 \* design-level C14: after every whole syllable the two machines show the same text, nothing is pending
